@@ -29,7 +29,7 @@ def run(ctx):
     rng = random.Random(ctx.seed)
 
     # ---- part A: the primitive ------------------------------------------------------------------
-    nA = ctx.n(300, 5000)
+    nA = ctx.n(300, 3000)
     exprs, metas, tot = [], [], {}
     for i in range(nA):
         e, m, key, stats = RL.sem_case(rng)
@@ -48,7 +48,7 @@ def run(ctx):
     ctx.disagreements += len(badA)
 
     # ---- part B: real workflows -------------------------------------------------------------------
-    nB = ctx.n(260, 4000)
+    nB = ctx.n(260, 2500)
     exprs, metas, tot = [], [], {}
     findings = []          # (key, msg, detail, spec)
     nind = 0
